@@ -211,6 +211,14 @@ type Cont struct {
 	StaleMap     *atree.OrderedMap
 	FormerParent *Cont
 
+	// Alt: a second live handle to the same attached, single-slab container (two-handle universe of C10).
+	AltArr *atree.Array
+	AltMap *atree.OrderedMap
+
+	// Table: this map was created with the caller-supplied digest table (only maps created as roots;
+	// a map reached through a parent is always opened with the default digester by the library).
+	Table bool
+
 	Parent *Cont // nil: root or detached
 	Dead   bool  // destroyed (popped out of its parent / disposed)
 	Wrap   int   // number of Some wrappers around it inside its parent
